@@ -349,4 +349,4 @@ class word_iterator(slots_getstate_setstate):
         self.char_iter.restore_backup()
 
     def scan_for_start(self, intro, followups):
-        self.char_iter.scan_for_start(intro, followups)
+        return self.char_iter.scan_for_start(intro, followups)
